@@ -292,4 +292,29 @@ PROPS = {
         "partial": ["the LINK clauses (attach/detach handshakes, answer in kind, flushing) are not modelled in Coq: they are decided on the implementation by the "
                     "direct oracle over generated scripts only; three known findings concern them"],
     },
+    "C19": {
+        "class_prefixes": ["c19-", "harness-crash"],
+        "subs": [
+            {"name": "saslm", "n_quick": 300, "n_thorough": 3000, "model": "coq/Auth/SaslListener.v",
+             "rule": "the listener cases of the sasl sub whose client actions are whole well-formed actions (SASL header, AMQP header, init with valid / invalid "
+                     "credentials or client-first, response correct / incorrect, a SASL frame a client must not send, AMQP open, EOF), abstracted to that alphabet; "
+                     "every sequence up to length 4 (thorough 5) per mechanism family plus random ones; distinct abstract cases only"},
+            {"name": "sasl", "n_quick": 300, "n_thorough": 20000, "oracle": False,
+             "rule": "listener (PLAIN, SCRAM-SHA-1/256/512, own and library credential stores) against a scripted byte-level client: all action sequences up to length 4 "
+                     "over 10-letter alphabets, 22 PLAIN credential variants x 5 credential pairs, 12 mechanism names, 11 client-first and 14 client-final variants, malformed, "
+                     "truncated, fragmented and out-of-turn frames, the library's own client with right/wrong credentials; SCRAM client against a scripted server: 43 "
+                     "tamperings x 3 hash variants, 12 iteration-count strings, salts; the scripted side's SCRAM arithmetic is implemented in the harness (RFC 5802 test vectors pass)"},
+        ],
+        "rule": "saslm: abstract case = mechanism family + action sequence, run against the real listener and through the extracted Coq step function; compared per step: "
+                "mechanisms / challenge / outcome ok or not / AMQP header / open / close written, accept() result, EOF. sasl: direct oracle on concrete traces "
+                "(open without authentication, outcome ok for bad credentials, valid exchange rejected, no failure reported, client accepts unproven server, "
+                "client ok on non-ok outcome, panic, hang); non-trivial = accept succeeded or a full SCRAM exchange took place",
+        "trusted": ["model scope: the listener's negotiation loop at the granularity of whole client actions; the credential comparison and the SCRAM arithmetic are "
+                    "abstracted into the validity of an action, decided by the harness from the case (its own SCRAM implementation is checked against the RFC vectors and "
+                    "against the library's client)",
+                    "hmac/sha1/sha2 crates (the library's own dependencies) used by the scripted side"],
+        "assumptions": ["the client's bytes arrive as whole frames in the model-compared cases (fragmented and malformed input is exercised by the sasl sub and C15)"],
+        "partial": ["the SCRAM CLIENT clauses (server must prove knowledge of the password; non-OK outcome is never success) are decided on the implementation by the direct "
+                    "oracle against the scripted server only - no Coq model of the client"],
+    },
 }
